@@ -551,16 +551,26 @@ def check_floor_worlds(repo: Repo, rep: Report, tier: str):
     rule = "C04.floor-worlds"
     an = repo.cls(f"{A}.Analyzer")
     bad: Dict[str, Tuple[int, str]] = {}
+    from pathlib import Path
+
+    from ..cache import cached, digest
+
     worlds = list(_floor_worlds(tier, repo))
     n = len(worlds)
     _POOL_REPO = repo
-    jobs = min(16, os.cpu_count() or 1)
+    jobs = min(int(os.environ.get("SA_JOBS", "16")), os.cpu_count() or 1)
     chunks = [worlds[i::jobs] for i in range(jobs)]
-    try:
-        with ProcessPoolExecutor(max_workers=jobs, mp_context=mp.get_context("fork")) as ex:
-            parts = list(ex.map(_world_chunk, chunks))
-    except (OSError, RuntimeError):
-        parts = [_world_chunk(c) for c in chunks]  # no pool available: same work, one process
+
+    def compute():
+        try:
+            with ProcessPoolExecutor(max_workers=jobs, mp_context=mp.get_context("fork")) as ex:
+                return list(ex.map(_world_chunk, chunks))
+        except (OSError, RuntimeError):
+            return [_world_chunk(c) for c in chunks]  # no pool available: same work, one process
+
+    key = "c04worlds-" + digest(repo, [m for m in repo.modules if m.startswith("fickling.") and m.split(".")[1] in ("analysis", "fickle", "ml", "exception")], f"{tier}|{jobs}", [Path(__file__)])
+    parts = cached(key, compute)
+    parts = [[tuple(o[:1]) + tuple([tuple(x) for x in part] if isinstance(part, list) else part for part in o[1:]) for o in outs] for outs in parts]
     for chunk, outs in zip(chunks, parts):
         for w, o in zip(chunk, outs):
             desc = f"decompiled program `{w['src'][len(BENIGN_PREFIX):].strip().replace(chr(10), '; ')}` ({w['cls']}, {'standard-library' if w['std'] else 'not standard-library'} module)"
